@@ -153,6 +153,12 @@ def alternatives(node, fname, val):  # noqa: C901
             pass
         if len(keys) >= 2:
             res.append(("same mapping, other insertion order", constantdict({k: val[k] for k in reversed(keys)}), True))
+            klast = sorted(keys, key=repr)[-1]
+            res.append((f"entry {klast!r} removed", constantdict({k: val[k] for k in keys if k != klast}), False))
+        if all(isinstance(k, str) for k in keys):
+            nd = dict(val)
+            nd["zz_added_entry"] = val[k0]
+            res.append(("entry added", constantdict(nd), False))
         if not res:
             raise CannotMutate(f"mapping with values {set(type(v).__name__ for v in val.values())}")
         return res
